@@ -264,6 +264,18 @@ pub fn run_case_as(c: &Case, kind: &str, ety: &str, mode: &str) -> Result<Obs, S
         return run_hist_as(c, kind, ety, mode, 0);
     }
     match kind {
+        // the grammar as a statically typed parser (harness/src/stat.rs), on &str with Rich errors; "staticc" = a deep
+        // clone of that parser value
+        "static" | "staticc" => {
+            if ety != "rich" {
+                return Err(format!("error type {ety} not instantiated for kind {kind}"));
+            }
+            let key = c.gj.to_string();
+            let idx = crate::stat::ASTS.iter().position(|a| serde_json::from_str::<J>(a).map_or(false, |j| j.to_string() == key)).ok_or("no statically typed parser for this grammar")?;
+            let s: String = c.inp.iter().collect();
+            LOCS.with(|l| *l.borrow_mut() = str_offsets(&c.inp));
+            crate::stat::run_static(idx, &s[..], &c.inp, mode, kind == "staticc").ok_or_else(|| "no such static parser".to_string())
+        }
         "str" => {
             let s: String = c.inp.iter().collect();
             LOCS.with(|l| *l.borrow_mut() = str_offsets(&c.inp));
